@@ -1,134 +1,5 @@
-// Native replay driver (E3): runs a harness body on concrete inputs against the real code.
-//   verif_replay run <harness> <witness-file>
-//   verif_replay random <harness> <seed> <count>
-//   verif_replay list
-use emulator_8086_lib::verif_gen::table;
-use emulator_8086_lib::verif_rt::native as rt;
-use std::panic;
-
-fn run_one(f: fn()) -> Option<String> {
-    let r = panic::catch_unwind(panic::AssertUnwindSafe(|| f()));
-    match r {
-        Ok(_) => None,
-        Err(e) => {
-            let msg = if let Some(s) = e.downcast_ref::<&str>() {
-                s.to_string()
-            } else if let Some(s) = e.downcast_ref::<String>() {
-                s.clone()
-            } else {
-                "panic".to_string()
-            };
-            Some(msg)
-        }
-    }
-}
-
-fn report(panic_msg: Option<String>) -> bool {
-    let mut bad = false;
-    rt::FAILS.with(|f| {
-        for l in f.borrow().iter() {
-            println!("FAIL {}", l);
-            bad = true;
-        }
-    });
-    rt::ASSUME_FAILED.with(|f| {
-        for l in f.borrow().iter() {
-            println!("ASSUME {}", l);
-        }
-    });
-    rt::MISSING.with(|f| {
-        for l in f.borrow().iter() {
-            println!("MISSING {}", l);
-        }
-    });
-    rt::COVERS.with(|f| {
-        for l in f.borrow().iter() {
-            println!("COVER {}", l);
-        }
-    });
-    rt::NOTES.with(|f| {
-        for l in f.borrow().iter() {
-            println!("NOTE {}", l.replace('\n', "\\n"));
-        }
-    });
-    if let Some(m) = panic_msg {
-        println!("PANIC {}", m.replace('\n', "\\n"));
-        bad = true;
-    }
-    bad
-}
-
-fn dump_wit() {
-    rt::WIT.with(|w| {
-        for (k, v) in w.borrow().iter() {
-            println!("WIT {}={}", k, v);
-        }
-    });
-}
-
+// Native replay driver (E3) for the library crate's harnesses; the logic is verif_rt::native::replay_cli.
+//   verif_replay run <harness> <witness-file> | random <harness> <seed> <count> | list
 fn main() {
-    panic::set_hook(Box::new(|_| {}));
-    let args: Vec<String> = std::env::args().collect();
-    let t = table();
-    if args.len() >= 2 && args[1] == "list" {
-        for (n, _) in t.iter() {
-            println!("{}", n);
-        }
-        return;
-    }
-    if args.len() < 4 {
-        eprintln!("usage");
-        std::process::exit(2);
-    }
-    let f = match t.iter().find(|(n, _)| *n == args[2]) {
-        Some((_, f)) => *f,
-        None => {
-            println!("NOHARNESS {}", args[2]);
-            std::process::exit(2);
-        }
-    };
-    if args[1] == "run" {
-        rt::reset();
-        let txt = std::fs::read_to_string(&args[3]).unwrap();
-        for line in txt.lines() {
-            if let Some((k, v)) = line.split_once('=') {
-                if let Ok(v) = v.trim().parse::<i128>() {
-                    rt::set(k.trim(), v);
-                }
-            }
-        }
-        let p = run_one(f);
-        report(p);
-        println!("END");
-    } else if args[1] == "random" {
-        let seed: u64 = args[3].parse().unwrap();
-        let n: u64 = args[4].parse().unwrap();
-        let mut ran = 0u64;
-        let mut skipped = 0u64;
-        let mut bad_runs = 0u64;
-        rt::RANDOM_MISSING.with(|r| *r.borrow_mut() = true);
-        for i in 0..n {
-            rt::reset();
-            rt::seed(seed.wrapping_mul(0x100000001B3).wrapping_add(i));
-            rt::set("bg", ((i % 3) + 2) as i128);
-            let p = run_one(f);
-            let assumed = rt::ASSUME_FAILED.with(|f| !f.borrow().is_empty());
-            if assumed && p.is_none() {
-                skipped += 1;
-                continue;
-            }
-            ran += 1;
-            let bad = rt::FAILS.with(|f| !f.borrow().is_empty()) || p.is_some();
-            if bad {
-                bad_runs += 1;
-                if bad_runs <= 3 {
-                    println!("CASE {}", i);
-                    report(p);
-                    dump_wit();
-                }
-            }
-        }
-        println!("RANDOM ran={} skipped={} bad={}", ran, skipped, bad_runs);
-        println!("END");
-    }
+    emulator_8086_lib::verif_rt::native::replay_cli(emulator_8086_lib::verif_gen::table(), std::env::args().collect());
 }
